@@ -882,6 +882,41 @@ package tree
 //@     invariant [a_tip_exists_as_soon_as_a_branch_does] len(edges) >= 1 ==> len(tips) >= 1
 //@     step [every_created_tip_becomes_a_candidate] len(next(tips)) == len(tips) + (len(edges) == 0 ? 2 : 1) && next(tips)[len(next(tips)) - 1] == n
 
+// RandomCaterpillarBinaryTree (property C16): every new tip is grafted on the branch of the tip added just before;
+// indexes are rebuilt before the tree is returned, unrooted trees are re-rooted first
+//@ func tree.RandomCaterpillarBinaryTree
+//@   flag noframe
+//@   flag lightcalls
+//@   flag countcalls
+//@   ensures [too_few_tips_is_an_error_not_a_crash] nbtips < 3 ==> result0 == nil && result1 != nil
+//@   ensures [a_tree_or_an_error] result0 == nil ==> result1 != nil
+//@   ensures [indexes_are_rebuilt_before_the_tree_is_returned] result0 != nil ==> ghost(ncalls_ReinitIndexes) == old(ghost(ncalls_ReinitIndexes)) + 1
+//@   ensures [an_unrooted_tree_is_rerooted_on_an_inner_node] result0 != nil ==> ghost(ncalls_RerootFirst) == old(ghost(ncalls_RerootFirst)) + (rooted ? 0 : 1)
+//@   call (*tree.Tree).GraftTipOnEdge [the_new_tip_is_grafted_on_the_branch_of_the_previous_one] a1 == n && a2 == lasttip.br[0] && i >= 2
+//@   loop 1
+//@     invariant [tree_object] t != nil
+//@     step [the_tip_just_added_is_the_next_grafting_point] next(lasttip) == n && next(i) == i + 1
+
+// RandomBalancedBinaryTree / randomBalancedBinaryTreeRecur (property C16): every node above the target depth gets two
+// fresh children on branches of non-negative length; children at the target depth are named with consecutive
+// identifiers; depth < 1 (or < 2 unrooted) is an error; indexes are rebuilt, unrooted trees are unrooted first
+//@ func tree.randomBalancedBinaryTreeRecur
+//@   flag noframe
+//@   flag lightcalls
+//@   requires t != nil && node != nil && id != nil
+//@   call (*tree.Tree).ConnectNodes [two_fresh_children_under_the_node] a1 == node && (a2 == child1 || a2 == child2) && fresh(a2)
+//@   call tree.randomBalancedBinaryTreeRecur [one_level_deeper_under_each_child_until_the_target_depth] curdepth < targetdepth && a0 == t && (a1 == child1 || a1 == child2) && a2 == curdepth + 1 && a3 == targetdepth && a4 == id
+//@   call (*tree.Node).SetName [only_nodes_at_the_target_depth_are_named] curdepth >= targetdepth && (a0 == child1 || a0 == child2)
+//@   ensures [two_identifiers_consumed_per_pair_of_tips] curdepth >= targetdepth ==> *id == old(*id) + 2
+
+//@ func tree.RandomBalancedBinaryTree
+//@   flag noframe
+//@   flag lightcalls
+//@   flag countcalls
+//@   ensures [too_shallow_is_an_error] depth < 1 || (depth < 2 && !rooted) ==> result0 == nil && result1 != nil
+//@   ensures [indexes_are_rebuilt_and_unrooted_trees_unrooted] result0 != nil ==> ghost(ncalls_ReinitIndexes) == old(ghost(ncalls_ReinitIndexes)) + 1 && ghost(ncalls_UnRoot) == old(ghost(ncalls_UnRoot)) + (rooted ? 0 : 1)
+//@   call tree.randomBalancedBinaryTreeRecur [built_from_a_fresh_root_at_depth_one_to_the_requested_depth] a0 == t && a1 == root && fresh(root) && a2 == 1 && a3 == depth && t.root == root
+
 // AllTopologies / allTopologies_recur (property C16): tip number k (counting from 1) is named tipNames[k-1] when
 // names are given; the recursion places exactly one more tip per level; after each level the branch the tip was
 // grafted on gets its two ends and its slots back and the grafted pieces are detached
